@@ -437,7 +437,10 @@ def must_call_summary(F, pattern, max_iter=20):
             if not through:
                 continue
             rets = f.returns()
-            if rets and f.must_pass_from_entry(through, rets):
+            # error exits (`return Err(..)`, `?`) do not count: a wrapper has to do its job on the paths that succeed
+            err_exits = [st.bb for st in f.stmts if st.kind == "agg adt std::result::Result::Err"] + [
+                c.bb for c in f.calls if c.name.endswith("from_residual")]
+            if rets and f.must_pass_from_entry(through + err_exits, rets):
                 summ.add(k)
                 added = True
         if not added:
@@ -1081,3 +1084,40 @@ def resolve_place(fn, place, depth=5):
             return place
         place = src + rest
     return place
+
+
+
+def split_generic_args(ty):
+    """top-level generic arguments of `path<A, B<C>, 'x>` as strings"""
+    i = ty.find("<")
+    if i < 0 or not ty.endswith(">"):
+        return []
+    inner = ty[i + 1:-1]
+    out, depth, cur = [], 0, ""
+    for ch in inner:
+        if ch in "<([":
+            depth += 1
+        elif ch in ">)]":
+            depth -= 1
+        if ch == "," and depth == 0:
+            out.append(cur.strip())
+            cur = ""
+        else:
+            cur += ch
+    if cur.strip():
+        out.append(cur.strip())
+    return out
+
+
+def substitute_generics(adt, selfty, field_ty):
+    """replace the ADT's generic parameter names in a field type by the arguments of the impl's self type"""
+    args = split_generic_args(selfty)
+    params = list(adt.generics)
+    if len(args) != len(params):
+        return field_ty
+    out = field_ty
+    for p_, a in zip(params, args):
+        if p_.startswith("'"):
+            continue
+        out = re.sub(r"(?<![A-Za-z_:0-9])%s(?![A-Za-z_0-9])" % re.escape(p_), a, out)
+    return out
